@@ -215,7 +215,7 @@ def scanner(run, prefix='C07'):
                         'scanner: ctype = C/POSIX ASCII classes; characters are class representatives (the scanner only tests classes and punctuation); what a symbol / a subscript denotes is symbolic per position (abstract element table, abstract strtod value, exact strtod read length)',
                         'scanner: realloc = typed fixed-capacity blocks (in place, or move+copy+free when the block is smaller), strndup = 8-byte blocks, O(1) error objects, typed bsearch / single-insertion qsort (precondition checked) with the REAL comparators']
     if run.tier == 'thorough':
-        return scanner_batches(run, prefix, 4, [0, 1, 2, 3, 4], lambda n: 1 if n < 2 else 9 if n == 2 else 27 if n == 3 else 81)
+        return scanner_batches(run, prefix, 4, [0, 1, 2, 3, 4], lambda n: 9 if n < 3 else 27, timeout=1800)
     return scanner_batches(run, prefix, 3, [0, 1, 2, 3], lambda n: 9 if n < 3 else 27)
 
 
